@@ -197,6 +197,9 @@ func shapeMain(args []string) error {
 				}
 				jobs = append(jobs, func(enc *json.Encoder) {
 					var sh shaping.HarfbuzzShaper
+					if rng.Intn(2) == 0 {
+						sh.SetFontCacheSize(4) // the shaper is re-used for all the calls of this face (sizes, directions, features vary)
+					}
 					for ti, text := range texts {
 						for di_, dir := range dirs {
 							for si, sc := range shapeScripts {
